@@ -130,10 +130,12 @@ impl DcpsDomainParticipant {
             .flat_map(|subscriber| subscriber.data_reader_list.iter())
             .filter_map(|data_reader| {
                 if let DurationKind::Finite(deadline) = data_reader.qos.deadline.period {
+                    // `instances` is what check_missed_reader_deadline looks at (the ownership
+                    // entry is dropped at the first miss)
                     data_reader
-                        .instance_ownership
+                        .instances
                         .iter()
-                        .map(|instance| deadline - (now - instance.last_received_time))
+                        .map(|instance| deadline - (now - instance.last_received_time_stamp()))
                         .min()
                 } else {
                     None
